@@ -165,6 +165,11 @@ pub fn check_once(u: &Universe, seq: &[String], reach: &BTreeSet<[u8; 32]>) -> O
         expected += 1;
         let label = u.chains[&n][j].label();
         let Some(&p) = pos.get(&label) else {
+            // a set-if-absent command may legitimately be rejected in a braid (writes nothing)
+            if u.chains[&n][j].bytes[0] == b'x' {
+                expected -= 1;
+                continue;
+            }
             return Some(format!("command {label} missing from seq"));
         };
         let mut anc = vec![];
@@ -173,6 +178,7 @@ pub fn check_once(u: &Universe, seq: &[String], reach: &BTreeSet<[u8; 32]>) -> O
             let al = u.label_of(&a);
             match pos.get(&al) {
                 Some(&q) if q < p => {}
+                None if u.by_id.get(&a).is_some_and(|(an, aj)| u.chains[an][*aj].bytes[0] == b'x') => {}
                 _ => return Some(format!("command {label} applied before its ancestor {al}")),
             }
         }
@@ -229,7 +235,8 @@ fn run_case(case: &Value, args: &Args, rng: &mut Rng) -> Result<(Value, u64), Fa
     let u = build_universe(case.a("cmds"), stretch, rng, merge_tag).map_err(|e| fail("tool:universe", e))?;
     let exp_err = case.b("err");
     let exp_heads: Vec<[u8; 32]> = case.a("heads").iter().map(|h| *u.tip(h.as_u64().unwrap()).id.as_array()).collect();
-    let exp_seq = u.expand(&case.a("seq").iter().map(|v| v.as_u64().unwrap()).collect::<Vec<_>>());
+    // the `seq` fact: application order of the commands the audit rules accepted
+    let exp_seq = u.expand(&case.g("facts").a("seq").iter().map(|v| v.as_u64().unwrap()).collect::<Vec<_>>());
     let exp_k = case.g("facts").u("k");
     let mut drift = 0u64;
 
